@@ -591,12 +591,10 @@ class Parser:
                 else:
                     result = node.value
             else:
-                subresults = []
-                # Recursive right to left, bottom up. Simulate LR
-                # reductions.
-                for n in reversed(node):
-                    subresults.append(inner_call_actions(n))
-                subresults.reverse()
+                # Recursive left to right, bottom up: the order in which
+                # the LR parser reduces, so that actions are called in the
+                # same order as when they are called during parsing.
+                subresults = [inner_call_actions(n) for n in node]
 
                 if sem_action:
                     assignments = node.production.assignments
